@@ -568,7 +568,7 @@ func (g *gstate) setup(ngroups int) {
 	nt := r.Intn(3)
 	for k := 0; k < nt; k++ {
 		name := fmt.Sprintf("tk%d", k)
-		gn := common.Pick(r, "g1", "g1", "g2", "other")
+		gn := common.Pick(r, "g1", "g1", "g2", "other", "g1x", "g1/sub", "g") // (incl. names that extend or are extended by a group's name)
 		user := common.Pick(r, "%", "%", "tim", "alice")
 		perms := common.Pick(r, "present+message", "message", "op+present+message", "-", "present+message+token", "[]",
 			"present+present", "op+record+present+op+message")
